@@ -155,17 +155,6 @@ example : Dns.clientHandle Dns.example1.question.qname
 
 /-! ## DHCP -/
 
-theorem noPanic_msgTypeTryFrom (t : Nat) : NoPanic (Dhcp.msgTypeTryFrom t) := by
-  intro s h
-  unfold Dhcp.msgTypeTryFrom at h
-  repeat' split at h
-  all_goals cases h
-
-theorem noPanic_stringFromUtf8 (v : Bytes) : NoPanic (Dhcp.stringFromUtf8 v) := by
-  intro s h
-  unfold Dhcp.stringFromUtf8 at h
-  split at h <;> cases h
-
 theorem c14_dhcp_total (bs : Bytes) : NoPanic (Dhcp.fromBytes bs) := by
   unfold Dhcp.fromBytes
   np_short; np_short; np_short; np_short; np_short; np_short; np_short
